@@ -16,6 +16,6 @@ for d in sorted(glob.glob(os.path.join(ROOT, "seeded", "C*"))):
 table = "| seed | change (from the author's notes) | caught by quick check | missed by |\n|---|---|---|---|\n" + "\n".join(rows)
 p = os.path.join(ROOT, "DESIGN.md")
 s = open(p).read()
-s = re.sub(r"<!-- SEEDTABLE-BEGIN -->.*<!-- SEEDTABLE-END -->", "<!-- SEEDTABLE-BEGIN -->\n" + table + "\n<!-- SEEDTABLE-END -->", s, flags=re.S)
+s = re.sub(r"<!-- SEEDTABLE-BEGIN -->.*<!-- SEEDTABLE-END -->", lambda _m: "<!-- SEEDTABLE-BEGIN -->\n" + table + "\n<!-- SEEDTABLE-END -->", s, flags=re.S)
 open(p, "w").write(s)
 print(len(rows), "seeds;", sum(1 for r in rows if "| — |" in r), "undetected")
